@@ -268,17 +268,121 @@ def joinRaw (group p : String) : String := if group = "" then p else group ++ "/
 /-- a registration attempt: method, path as written, handler (`none` = nil). -/
 abbrev Reg := String × String × Option H
 
-/-- one `AddRoutes(routes, opts...)` call: `pfx = some g` when `WithPrefix(g)` is among the options. -/
+/-- `path.Join(group, p)`: "" when both are empty, else `path.Clean` of the non-empty elements joined by '/'.
+A rooted result is cleaned (the model's `cleanPath`); a result that is not rooted is kept uncleaned — the model
+has no `Clean` for relative paths: such a path is rejected by `Handle` whatever it looks like, and below an
+outer rooted group cleaning it first or later gives the same path (`..` elements that underflow are kept by
+Go's Clean of a relative path). -/
+def joinGo (group p : String) : String :=
+  if rooted (joinRaw group p) then cleanPath (joinRaw group p) else joinRaw group p
+
+/-- the `RouteOption`s of rest/server.go. -/
+inductive RouteOpt where
+  | pfx (g : String)                       -- WithPrefix(g)
+  | jwt (secret : String)                  -- WithJwt(secret): enabled + secret; an earlier `prevSecret` STAYS
+  | jwtTransition (secret prev : String)   -- WithJwtTransition(secret, prev)
+  | timeout (ms : Nat)                     -- WithTimeout
+  | maxBytes (n : Nat)                     -- WithMaxBytes
+  | priority                               -- WithPriority
+  | sse                                    -- WithSSE (also resets the timeout)
+  deriving Repr, DecidableEq
+
+/-- the fields of `featuredRoutes` other than `routes`. -/
+structure Settings where
+  jwt : Option (String × String) := none   -- `jwt.enabled`, (`secret`, `prevSecret`)
+  timeout : Nat := 0
+  maxBytes : Nat := 0
+  priority : Bool := false
+  sse : Bool := false
+  deriving Repr, DecidableEq
+
+def Settings.apply (s : Settings) : RouteOpt → Settings
+  | .pfx _ => s
+  | .jwt a => { s with jwt := some (a, (s.jwt.map (·.2)).getD "") }
+  | .jwtTransition a b => { s with jwt := some (a, b) }
+  | .timeout ms => { s with timeout := ms }
+  | .maxBytes n => { s with maxBytes := n }
+  | .priority => { s with priority := true }
+  | .sse => { s with sse := true, timeout := 0 }
+
+/-- what `WithPrefix(g)` makes of one route: `Route{Method: rt.Method, Path: path.Join(g, rt.Path), Handler: rt.Handler}`. -/
+def prefixReg (g : String) (r : Reg) : Reg := (r.1, joinGo g r.2.1, r.2.2)
+
+/-- `featuredRoutes` as a value. -/
+structure Featured where
+  routes : List Reg := []
+  set : Settings := {}
+  deriving Repr
+
+/-- a `RouteOption` applied to a `featuredRoutes` VALUE: `WithPrefix` builds a new route list, every other
+option only writes its own setting. -/
+def Featured.apply (f : Featured) (o : RouteOpt) : Featured :=
+  { routes := match o with
+      | .pfx g => f.routes.map (prefixReg g)
+      | _ => f.routes,
+    set := f.set.apply o }
+
+/-- one `AddRoutes(routes, opts...)` call, as the caller wrote it. -/
 structure Group where
-  pfx : Option String := none
+  opts : List RouteOpt := []
   routes : List Reg := []
   deriving Repr
 
-/-- the routes of a group as stored in `engine.routes` (after `WithPrefix`). -/
-def Group.regs (g : Group) : List Reg :=
-  match g.pfx with
-  | none => g.routes
-  | some x => g.routes.map fun r => (r.1, joinRaw x r.2.1, r.2.2)
+/-- `r := featuredRoutes{routes: rs}; for _, opt := range opts { opt(&r) }` -/
+def Group.featured (g : Group) : Featured := g.opts.foldl Featured.apply { routes := g.routes }
+
+/-- the routes of a group as stored in `engine.routes` (after the options). -/
+def Group.regs (g : Group) : List Reg := g.featured.routes
+
+/-! #### the same with the aliasing the Go code has
+
+`featuredRoutes{routes: rs}` does not copy: until a `WithPrefix` replaces `r.routes` by a freshly made slice the
+group stored in `engine.routes` points at the CALLER's backing array, and one caller slice may be passed to
+`AddRoutes` any number of times.  `Api` keeps the caller's slices in a heap and lets groups refer to them. -/
+
+/-- where `featuredRoutes.routes` points. -/
+inductive RoutesRef where
+  | caller (k : Nat)        -- the caller's slice number `k` (as passed to `AddRoutes`)
+  | own (l : List Reg)      -- a slice made by the server (`WithPrefix`: make + append; `AddRoute`: `[]Route{r}`)
+  deriving Repr
+
+structure Api where
+  heap : List (List Reg) := []                  -- the caller's `[]Route` values, in the order they were made
+  frs : List (RoutesRef × Settings) := []       -- `engine.routes`
+  deriving Repr
+
+def deref (heap : List (List Reg)) : RoutesRef → List Reg
+  | .caller k => heap.getD k []
+  | .own l => l
+
+/-- a `RouteOption` run on `&r` (reads the routes through the reference; `WithPrefix` stores a fresh slice). -/
+def aApply (heap : List (List Reg)) (f : RoutesRef × Settings) (o : RouteOpt) : RoutesRef × Settings :=
+  (match o with
+    | .pfx g => .own ((deref heap f.1).map (prefixReg g))
+    | _ => f.1,
+   f.2.apply o)
+
+inductive ApiOp where
+  | slice (rs : List Reg)                        -- the caller makes a `[]Route`
+  | add (k : Nat) (opts : List RouteOpt)         -- `Server.AddRoutes(slice k, opts...)`
+  | addOne (r : Reg) (opts : List RouteOpt)      -- `Server.AddRoute(r, opts...)` = `AddRoutes([]Route{r}, opts...)`
+  deriving Repr
+
+/-- (`engine.addRoutes` with `sse` runs `buildSSERoutes`, which overwrites the `Handler` fields of the slice it
+is given IN PLACE — the caller's slice when no `WithPrefix` came before; method and path are not touched and the
+wrapper runs the same handler, so with handlers as identities nothing changes here.) -/
+def Api.step (a : Api) : ApiOp → Api
+  | .slice rs => { a with heap := a.heap ++ [rs] }
+  | .add k opts =>
+    let r0 : RoutesRef := if k < a.heap.length then .caller k else .own []
+    { a with frs := a.frs ++ [opts.foldl (aApply a.heap) (r0, {})] }
+  | .addOne r opts => { a with frs := a.frs ++ [opts.foldl (aApply a.heap) (.own [r], {})] }
+
+/-- the group a reference denotes now. -/
+def resolve (heap : List (List Reg)) (f : RoutesRef × Settings) : Featured := { routes := deref heap f.1, set := f.2 }
+
+/-- what `engine.bindRoutes` will read: every group's routes through its reference, at that time. -/
+def Api.regs (a : Api) : List Reg := a.frs.flatMap fun f => deref a.heap f.1
 
 inductive RunOpt where
   | notFound (h : Option H)      -- rest.WithNotFoundHandler(h)
